@@ -148,3 +148,206 @@ Proof.
   eexists. split; [repeat constructor|]. split; vm_compute; reflexivity.
 Qed.
 Print Assumptions C04_pinned_lowering_refuted.
+
+(* ====================================================================================
+   Composition with C03: the conditions are boolean FORMULAS.
+
+   Above, a condition is any (precommand lines, guards) pair and "true" means what MC.Sem computes
+   when they run.  Property C03 (Props/C03.v) proves what the lowering of a formula computes.
+   Here the two are composed (Proofs/ComposeCond.v), for the very lowering the correspondence
+   check feeds to the chain model (Model.CondLower.cond_of_formula = Run.C04.lowc):
+
+     formula, eval         Model.Cond.formula (&&, ||, ! over score atoms, any nesting) and its
+                           source-level truth value in a state
+     formula_ok nm f       hypothesis of C03_guard_iff_partial: && / || have >= 1 operand, atoms read
+                           no `__logic__N` score, every bound JMC writes is a Java int
+     lowers nm f c         formula_ok nm f /\ exists wrapped, cond_of_formula nm wrapped f = Some c
+     user_score nm s       s is not a `__logic__N` flag
+     same_but_logic nm a b b is a except on `__logic__N` flags (scores, storage, trace)
+     select st fs e        the outcome JavaScript gives: Took i for the FIRST i with eval st f_i = true,
+                           else TookElse if there is an else, else TookNone  (C04_select_is_first_true)
+   ==================================================================================== *)
+From JMCV Require Import Model.CondLower Proofs.Loop Proofs.ComposeCond.
+
+(* `__if_else__` is not one of C03's scratch flags: C03's frame clause ("user scores are left
+   alone by a test") covers it. *)
+Theorem C04_if_else_flag_is_user_score : forall nm, user_score nm (flag nm).
+Proof. exact if_else_flag_user. Qed.
+Print Assumptions C04_if_else_flag_is_user_score.
+
+(* A lowered formula satisfies every hypothesis the theorems above and those of Props/C05.v put
+   on a condition (keeps_flag; simple_cond / quiet_pre = precommands of the emitted shape; all
+   lines well-formed), and testing it — from ANY state, whatever the `__logic__N` flags hold —
+   terminates in a unique state st1 that is st except on `__logic__N`, in which the guards hold
+   iff the formula is true of st. *)
+Theorem C04_condition_of_formula :
+  forall nm ft env f c,
+    lowers nm f c ->
+    keeps_flag nm ft env c /\
+    simple_cond (flag nm) c = true /\ forallb quiet_pre (c_pre c) = true /\
+    forallb wf_cmd (c_pre c) = true /\ forallb wf_mod (mods_of (c_tests c)) = true /\
+    forall st, exists st1,
+      runs ft env (c_pre c) st st1 /\ (forall st2, runs ft env (c_pre c) st st2 -> st2 = st1) /\
+      same_but_logic nm st st1 /\
+      tests_hold st1 (c_tests c) = eval st f.
+Proof. exact condition_of_formula. Qed.
+Print Assumptions C04_condition_of_formula.
+
+(* select is "the first true formula in source order" *)
+Theorem C04_select_is_first_true :
+  forall st fs has_else,
+    match select st fs has_else with
+    | Took i => exists f, nth_error fs i = Some f /\ eval st f = true /\
+                          forall j g, (j < i)%nat -> nth_error fs j = Some g -> eval st g = false
+    | TookElse => has_else = true /\ Forall (fun g => eval st g = false) fs
+    | TookNone => has_else = false /\ Forall (fun g => eval st g = false) fs
+    end.
+Proof. exact select_spec. Qed.
+Print Assumptions C04_select_is_first_true.
+
+(* THE COMPOSED STATEMENT.  For every chain (>= 2 parts) whose conditions, in source order, are the
+   lowerings of formulas `forms` (any formulas within formula_ok), every bodies / else, every
+   numbering, every function table containing the generated functions, every env and state st:
+   let o be the source-level choice among `forms` in st with `__if_else__` zeroed — i.e. in the
+   state in which the first formula is tested; the later ones are tested in states that differ
+   from it on `__logic__N` only (no body has run), and eval does not read those.  Then there is a
+   state stb, equal to st except on `__logic__N` and `__if_else__` (= 0), such that the emitted
+   caller terminates in st' IF AND ONLY IF the body designated by o (branch i, else body, or
+   nothing) run from stb terminates in st'' and st' = st'' with `__if_else__` := 1 after a wrapped
+   branch.  So exactly the body of the first true formula runs, once, nothing else runs, and a
+   user score the body does not write keeps its value (C04_formulas_frame).
+   No hypothesis on bodies: a body may contain conditions of its own, i.e. overwrite `__logic__N`
+   and `__if_else__`; within one chain no formula is tested after a body has run, and whatever the
+   flags held at entry (stale values from earlier statements) every test re-initialises the flags
+   it reads — that is C03_numbering_invariant, used through C03_guard_iff_partial "for every st". *)
+Theorem C04_chain_with_formulas :
+  forall nm ft env first rest last caller fs forms,
+    chain_code nm first rest last = (caller, fs) -> installed ft fs ->
+    Forall2 (fun cb f => lowers nm f (fst cb)) (chain_branches first rest last) forms ->
+    forall st,
+      let o := select (set_sc st (flag nm) 0) forms (is_some (last_else last)) in
+      exists stb,
+        (forall s, user_score nm s -> s <> flag nm -> sc stb s = sc st s) /\
+        sc stb (flag nm) = Some 0%Z /\ stg stb = stg st /\ tr stb = tr st /\
+        forall st', runs ft env caller st st' <->
+                    exists st'', runs ft env (sel_body (chain_branches first rest last) (last_else last) o) stb st'' /\
+                                 st' = finish nm (S (length rest)) o st''.
+Proof. exact chain_with_formulas. Qed.
+Print Assumptions C04_chain_with_formulas.
+
+(* zeroing `__if_else__` is invisible to formulas that do not read that score (user programs do
+   not: it is JMC's): the choice is the one made in st itself *)
+Theorem C04_select_ignores_flag :
+  forall nm st fs has_else,
+    Forall (fun f => Forall (fun a => ~ In (flag nm) (Proofs.CondFormula.atom_scores a))
+                            (Proofs.CondFormula.atoms f)) fs ->
+    select (set_sc st (flag nm) 0) fs has_else = select st fs has_else.
+Proof. exact select_ignores_flag. Qed.
+Print Assumptions C04_select_ignores_flag.
+
+(* frame: a user score other than `__if_else__` that the chosen body does not write is unchanged *)
+Theorem C04_formulas_frame :
+  forall nm ft env first rest last caller fs forms s,
+    chain_code nm first rest last = (caller, fs) -> installed ft fs ->
+    Forall2 (fun cb f => lowers nm f (fst cb)) (chain_branches first rest last) forms ->
+    user_score nm s -> s <> flag nm ->
+    forall st st',
+      (forall a b, runs ft env (sel_body (chain_branches first rest last) (last_else last)
+                                         (select (set_sc st (flag nm) 0) forms (is_some (last_else last)))) a b ->
+                   sc b s = sc a s) ->
+      runs ft env caller st st' -> sc st' s = sc st s.
+Proof. exact chain_frame. Qed.
+Print Assumptions C04_formulas_frame.
+
+(* a lone `if (f) body` *)
+Theorem C04_single_if_with_formula :
+  forall nm ft env f c body aid caller fs,
+    single_if_code nm c body aid = (caller, fs) -> installed ft fs -> lowers nm f c ->
+    forall st, exists stb, same_but_logic nm st stb /\
+      forall st', runs ft env caller st st' <-> if eval st f then runs ft env body stb st' else st' = stb.
+Proof. exact single_if_with_formula. Qed.
+Print Assumptions C04_single_if_with_formula.
+
+(* C04_exactly_one with formulas: bodies = abstract sub-programs (arbitrary on scores — including
+   `__logic__N`, `__if_else__` and the variables the formulas read — and storage): the emitted chain
+   followed by the next statement always terminates, in a unique state, and the trace grows by the
+   events of the body of the first true formula, once, then `after`, once. *)
+Theorem C04_formulas_exactly_one :
+  forall nm ft env,
+    (forall n st, tr (env n st) = tr st) ->
+    forall first rest last caller fs forms after,
+      chain_code nm first rest last = (caller, fs) -> installed ft fs ->
+      Forall2 (fun cb f => lowers nm f (fst cb)) (chain_branches first rest last) forms ->
+      Forall (fun cb => all_ext (snd cb) = true) (chain_branches first rest last) ->
+      match last_else last with Some b => all_ext b = true | None => True end ->
+      forall st,
+        let o := select (set_sc st (flag nm) 0) forms (is_some (last_else last)) in
+        exists st',
+          runs ft env (caller ++ [CExt after]) st st' /\
+          (forall st2, runs ft env (caller ++ [CExt after]) st st2 -> st2 = st') /\
+          tr st' = EExt after ::
+                   rev (map EExt (ext_ids (sel_body (chain_branches first rest last) (last_else last) o))) ++ tr st.
+Proof. exact formulas_exactly_one. Qed.
+Print Assumptions C04_formulas_exactly_one.
+
+(* Non-vacuity:  if ($x == 1) {X0} else if ($y) {X1} else if ($a || ($b && ($c || $d))) {X2; X3}
+   (no else: the last else-if is unwrapped and, having `||` helpers, gets a function of its own).
+   The conditions are computed by cond_of_formula; the hypotheses hold; from x=0, y unset, a=0, b=1,
+   c=0, d=5 with STALE scratch (`__logic__0` = `__logic__1` = `__if_else__` = 1) the choice is the
+   third branch and the emitted code's trace is the theorem's right-hand side; with d=0 nothing runs. *)
+Definition fx_nm := default_names.
+Definition fx_v (s : string) : score := (s, "__variable__"%string).
+Definition fx_t (s : string) : Model.Cond.formula := Model.Cond.Leaf (Model.Cond.ATruthy (fx_v s)).
+Definition fx_f0 : Model.Cond.formula :=
+  Model.Cond.Leaf (Model.Cond.ACmp (fx_v "$x") Model.Cond.SEq2 (Model.Cond.RLit 1)).
+Definition fx_f1 : Model.Cond.formula := fx_t "$y".
+Definition fx_f2 : Model.Cond.formula :=
+  Model.Cond.Or [fx_t "$a"; Model.Cond.And [fx_t "$b"; Model.Cond.Or [fx_t "$c"; fx_t "$d"]]].
+Definition fx_cond (f : Model.Cond.formula) : cond :=
+  match cond_of_formula fx_nm true f with Some c => c | None => mkCond [] [] end.
+Definition fx_first := mkW (fx_cond fx_f0) [CExt 0] 0.
+Definition fx_rest := [(mkW (fx_cond fx_f1) [CExt 1] 1, 4%nat)].
+Definition fx_last := LElif (fx_cond fx_f2) [CExt 2; CExt 3] 2 3.
+Definition fx_forms := [fx_f0; fx_f1; fx_f2].
+Definition fx_code := chain_code fx_nm fx_first fx_rest fx_last.
+Definition fx_ft (f : string) : option (list cmd) := lookup_fn (snd fx_code) f.
+Definition fx_env (n : nat) (st : state) : state :=
+  set_sc (set_sc st (fx_v "__logic__0") 1) (fx_v "$a") 1.   (* bodies clobber scratch and $a *)
+Definition fx_st (d : Z) : state :=
+  mkState (fun k => if score_eqb k (fx_v "$x") then Some 0%Z
+                    else if score_eqb k (fx_v "$a") then Some 0%Z
+                    else if score_eqb k (fx_v "$b") then Some 1%Z
+                    else if score_eqb k (fx_v "$c") then Some 0%Z
+                    else if score_eqb k (fx_v "$d") then Some d
+                    else if score_eqb k (fx_v "__logic__0") then Some 1%Z
+                    else if score_eqb k (fx_v "__logic__1") then Some 1%Z
+                    else if score_eqb k (fx_v "__if_else__") then Some 1%Z
+                    else None) (fun _ => None) [].
+Definition fx_rhs (st : state) : list event :=
+  EExt 9 :: rev (map EExt (ext_ids (sel_body (chain_branches fx_first fx_rest fx_last) (last_else fx_last)
+                                             (select (set_sc st (flag fx_nm) 0) fx_forms (is_some (last_else fx_last))))))
+         ++ tr st.
+
+Example C04_formulas_nonvacuous :
+  Forall2 (fun cb f => lowers fx_nm f (fst cb)) (chain_branches fx_first fx_rest fx_last) fx_forms /\
+  installed fx_ft (snd fx_code) /\ length (c_pre (fx_cond fx_f2)) = 6%nat /\
+  (forall n st, tr (fx_env n st) = tr st) /\
+  select (set_sc (fx_st 5) (flag fx_nm) 0) fx_forms false = Took 2 /\
+  option_map tr (exec_list fx_ft fx_env 12 (fst fx_code ++ [CExt 9]) (fx_st 5)) = Some (fx_rhs (fx_st 5)) /\
+  fx_rhs (fx_st 5) = [EExt 9; EExt 3; EExt 2] /\
+  select (set_sc (fx_st 0) (flag fx_nm) 0) fx_forms false = TookNone /\
+  option_map tr (exec_list fx_ft fx_env 12 (fst fx_code ++ [CExt 9]) (fx_st 0)) = Some (fx_rhs (fx_st 0)) /\
+  fx_rhs (fx_st 0) = [EExt 9].
+Proof.
+  assert (L : forall f, Proofs.CondFormula.formula_ok fx_nm f -> cond_of_formula fx_nm true f <> None ->
+                        lowers fx_nm f (fx_cond f)).
+  { intros f Ok N. split; [exact Ok|]. exists true. unfold fx_cond.
+    destruct (cond_of_formula fx_nm true f); [reflexivity|congruence]. }
+  split.
+  { constructor; [|constructor; [|constructor; [|constructor]]]; cbn [fst src_of w_cond fx_first fx_rest fx_last];
+      (apply L; [|vm_compute; discriminate]); (split; [reflexivity|]); cbn;
+      repeat constructor; try (intros k E; discriminate E); vm_compute; discriminate. }
+  split; [repeat constructor|]. split; [vm_compute; reflexivity|].
+  split; [intros n st; reflexivity|].
+  repeat split; vm_compute; reflexivity.
+Qed.
